@@ -211,7 +211,13 @@ type position struct {
 	restricted bool
 	// silent: the string is not expected to reach SQL at all (evaluated in the reader)
 	silent bool
+	// altBenign: a slot that takes numbers. When the front end accepts the hostile string but refuses the harmless
+	// string of its class, the statement is compared with the one for this number: same tokens, one token in the
+	// number's place
+	altBenign string
 }
+
+var rePlainNumber = regexp.MustCompile(`^-?[0-9]+(\.[0-9]+)?$`)
 
 const (
 	tFrom = int64(1700000000)
@@ -431,6 +437,24 @@ func positions() []*position {
 	// ---------------- TraceQL ----------------
 	for _, op := range []struct{ n, op string }{{"eq", "="}, {"ne", "!="}, {"re", "=~"}, {"nre", "!~"}} {
 		str("traceql.attr."+op.n, formsLogQL, tpl(`{.a`+op.op+`§}`, tempoSearchQ))
+	}
+	// ordering comparisons with a quoted value (refused at the pinned commit; a front end that takes quoted numbers
+	// must still keep the value in one token)
+	for _, op := range []struct{ n, op string }{{"gt", ">"}, {"ge", ">="}, {"lt", "<"}, {"le", "<="}} {
+		p := str("traceql.attr."+op.n+".quoted", formsLogQL, tpl(`{.a `+op.op+` §}`, tempoSearchQ))
+		p.restricted, p.altBenign = true, "27"
+		p.expect = func(eff string) expectation {
+			if rePlainNumber.MatchString(eff) {
+				return expectation{class: "number", free: true}
+			}
+			return expIdentity(eff)
+		}
+		p.benign = func(class string) string {
+			if class == "number" {
+				return "27"
+			}
+			return marker
+		}
 	}
 	str("traceql.attr.span.re", formsLogQL, tpl(`{span.x=~§ && resource.c!="d"}`, tempoSearchQ))
 	str("traceql.attr.resource.eq", formsLogQL, tpl(`{resource.service.name=§ || .n > 5}`, tempoSearchQ))
